@@ -5,36 +5,7 @@ ROOT = os.path.dirname(os.path.dirname(os.path.abspath(__file__)))
 props = [json.loads(l) for l in open(os.path.join(ROOT, "properties.jsonl"))]
 
 # id -> (technique, level text, level note, design ref)
-CLAIMED = {
- "C24": ("Coq proof over Gallina regenerated from OrderedSet.py by tools/py2v (refinement to an abstract first-insertion-order list machine, induction over operation histories)",
-         "Unbounded theorems (Props/C24.v, 13 statements, all `Closed under the global context`): after any history of add/discard/update the generated code's iteration is duplicate-free, has exactly the members of a plain set, and keeps first-insertion order; constructor, copy, union, ordered_union/intersect/diff are characterised by first-occurrence lists. The model is regenerated from the source on every run, so a source change re-checks the proofs; a differential run of the same histories on the real class and on the Gallina (vm_compute) and a plain-set oracle look for the failing input.",
-         "Trusted: Coq kernel, vm_compute, tools/py2v.py, OrderedDict modelled as insertion-ordered association list; collections.abc mix-in operators are stdlib (oracle only).",
-         "DESIGN.md section 5 C24"),
- "C23": ("Coq proof (invariant by induction over the edge list) about a hand-written executable Gallina model of connected_components.py; model tied to the code by differential correspondence evaluated inside Coq",
-         "Unbounded theorems (Props/C23.v): for every edge list over any decidable totally ordered vertex type the model returns one label per edge, the label is connected to the edge's endpoints and is <= every vertex of that component, and two edges share a label iff they are in one component. The Python uses aliased mutable Component objects, so the model is hand-written (store of cells) and every run compares it with the real function on thousands of random edge lists (thorough: plus all edge lists with <=4 edges over 4 vertices); a BFS oracle checks the real function directly.",
-         "Trusted: Coq kernel, vm_compute, the hand model's fidelity (sampled by correspondence on every run), order-isomorphic integer encoding of vertices in the harness; the pandas_base impl_map use of the function is oracle-only.",
-         "DESIGN.md section 5 C23"),
- "C06": ("Coq proof about try_to_merge_ops regenerated from data_ops_utils.py by tools/py2v (merged extend = sequential extends, for every assignment pair and every column-local evaluation function); differential oracles for the other simplifications",
-         "Unbounded theorems (Props/C06.v): whenever the regenerated try_to_merge_ops merges two extends, the merged step denotes column for column the same frame as the two steps applied in turn, and assigns exactly their columns -- for all assignment dictionaries (overwriting/repeated assignments included), all frames and all column functions that look only at the expression's columns and the window columns. A source change re-checks the proof (it was unprovable until the fix 6dc26b4). Order_rows elimination and select/drop collapsing are exercised by two implementation-level oracles on every run: chained vs step-by-step evaluation on Pandas, and accept/reject agreement between a simplified prefix and a bare table description (partial: no theorem yet for those two simplifications). The window test that guards merging in extend_parsed_ and ExtendNode's window bookkeeping are a hand model (Model/MergeGuard.v) with the theorem that a merge passing the test yields a node with exactly the windowed situation, partition, order and reversal of both steps; that model is compared on every run with the real builder on hundreds of pairs of chained extend calls (the oracle found the defect fixed by 240a99b exactly there). Minimised scripts of every earlier failure (corpus/C06) run first on every run.",
-         "Trusted: Coq kernel, vm_compute, tools/py2v.py, Model/Extend.v as the meaning of extend, get_columns_used as union of column sets (correspondence-checked), fidelity of the hand model Model/MergeGuard.v (sampled by correspondence on every run; implies_windowed taken from the real function). Partial: order_rows elimination / select-collapse are oracle-only.",
-         "DESIGN.md section 5 C06"),
- "C20": ("Coq proofs about hand-written state-machine models of DataModelSpace and DBSpace (step lemmas from every state + invariant by induction over histories + a refuted statement with witness); models tied to the code by differential correspondence of random histories evaluated in Coq",
-         "Unbounded theorems (Props/C20.v, 15): for both spaces, from every (invariant-satisfying) state: a successful insert/execute is exactly a map write of the result computed on the current contents, a write with allow_overwrite=False on an existing key fails and changes nothing, an automatic key is never in use (pigeonhole over injective names) so it never replaces an entry, remove/retrieve/keys reflect the map, failed operations change nothing -- for DBSpace only outside the listed finding, whose refutation witness is itself a theorem. The models are hand-written; every run replays hundreds of random histories (user keys include da_temp_<n>) on the real classes (DBSpace on SQLite) and on the models inside Coq, and a plain-dict oracle checks the real classes directly.",
-         "Trusted: Coq kernel, vm_compute, fidelity of Model/DataSpace.v (sampled every run), injectivity of f'da_temp_{n}', SQLite behind DBSpace; close()/model_table() not modelled.",
-         "DESIGN.md section 5 C20"),
- "C25": ("Coq proofs about a hand-written heap model of eval_cache.py (key injectivity from hash injectivity; refinement of the copy-on-store/copy-on-get cache to a map of frame values by induction over histories); model tied to the code by differential correspondence of random histories evaluated in Coq",
-         "Unbounded theorems (Props/C25.v, 6): keys are injective in dialect, SQL and data map (given that the frame hash separates frames -- a stated hypothesis) and independent of insertion order; for every history in which the caller mutates only frames it holds, the cache with private copies yields operation-by-operation the outputs of a plain map from keys to frame VALUES (so mutating a returned copy or the stored frame never changes the cache); lookups succeed exactly after a store under an equal key. Every run replays random new/mutate/store/get/read histories on the real ResultCache and on the model inside Coq, runs a dict oracle, and probes the hash hypothesis on all pairs of 18 frames differing in one value, column name, shape, row order or dtype.",
-         "Trusted: Coq kernel, vm_compute, fidelity of Model/Cache.v (sampled), hash_data_frame separates frames (hypothesis; one listed finding: bool vs int), list.sort canonical, pandas copy()/equals().",
-         "DESIGN.md section 5 C25"),
- "C22": ("Coq proofs relating an executable hand model of data_schema.py to a declarative reading of 'schema violation' over an abstract type universe (iff theorems, switch transparency, example-value normalisation, one refuted statement); model tied to the code by differential correspondence evaluated in Coq",
-         "Unbounded theorems (Props/C22.v, 10): over every universe of types with an isinstance relation, the checker rejects a value iff it violates its specification (missing column, non-frame, non-null cell or scalar of none of the declared types), check_args raises TypeError iff a declared argument is missing or violating and never raises anything else, the wrapper returns the function's own result unchanged iff nothing violates, with the switch off it never raises, and example values (alone or inside sets) declare their own types. Every run compares the model with the real decorator on thousands of random specification x call pairs inside Coq and against an independent oracle written from the property text; two defects found this way were fixed in /repo, one is listed.",
-         "Trusted: Coq kernel, vm_compute, fidelity of Model/Schema.v (0 disagreements in the sampled correspondence), isinstance over {int,float,str,bool} and pandas iteration/isnull semantics in the harness.",
-         "DESIGN.md section 5 C22"),
- "C14": ("Coq proofs about quote_string / quote_identifier / _clean_annotation regenerated from sql_model.py and MySQL.py by tools/py2v, against formal lexing rules of the SQL dialect families (round trips for all strings by induction over character lists; one refuted statement); execution oracle on SQLite",
-         "Unbounded theorems (Props/C14.v, 8): in the standard family (SQLite, PostgreSQL) the regenerated quote_string makes EVERY string read back verbatim with the following query text untouched; identifiers are rejected iff they contain the identifier quote and otherwise read back verbatim (MySQL's override is identical); a cleaned annotation contains no end-of-line or percent character so its `--` comment ends exactly where the generator ends it; for the backslash family (MySQL/BigQuery/Spark) the round trip is proved only for strings without a backslash and the full statement is refuted by a theorem (listed finding). The code is re-translated on every run; a correspondence run pushes nasty strings through the real functions of all five dialects and the Gallina; an execution oracle uses such strings as literals, comparison values, is_in/mapv entries, column/table names, concat_rows labels, record-map keys and annotated pipeline text on SQLite (SQLite and PostgreSQL dialect text).",
-         "Trusted: Coq kernel, vm_compute, tools/py2v.py, Base/PyStr.v models of Python str operations (ASCII whitespace), Model/Lex.v lexing rules written from documentation (no MySQL/BigQuery/Spark/PostgreSQL engine here); value_to_sql's non-string branches, concat labels and record-map SQL are oracle-only.",
-         "DESIGN.md section 5 C14"),
-}
+CLAIMED = {k: (v["technique"], v["text"], v["note"], v["design_ref"]) for k, v in json.load(open(os.path.join(ROOT, "tools", "claims.json"))).items()}
 NOT_YET = "check not built yet (work in progress; see DESIGN.md section 8 build order)"
 
 m = {"version": 1, "setup_cmd": "./setup.sh",
